@@ -93,6 +93,14 @@ impl Loaded for Vec<u8> {
     fn digest(&self) -> u64 { digest_bytes(5, self) }
     fn borrows(&self) -> Vec<(usize, usize)> { vec![] }
 }
+impl Loaded for Vec<String> {
+    fn digest(&self) -> u64 { self.iter().fold(11, |a, x| a.wrapping_mul(1000003) ^ digest_bytes(7, x.as_bytes())) }
+    fn borrows(&self) -> Vec<(usize, usize)> { vec![] }
+}
+impl<'a> Loaded for Vec<&'a str> {
+    fn digest(&self) -> u64 { self.iter().fold(11, |a, x| a.wrapping_mul(1000003) ^ digest_bytes(7, x.as_bytes())) }
+    fn borrows(&self) -> Vec<(usize, usize)> { self.iter().map(|x| (x.as_ptr() as usize, x.len())).collect() }
+}
 impl Loaded for &str {
     fn digest(&self) -> u64 { digest_bytes(7, self.as_bytes()) }
     fn borrows(&self) -> Vec<(usize, usize)> { vec![(self.as_ptr() as usize, self.len())] }
@@ -276,6 +284,13 @@ fn make_file(dir: &std::path::Path, ty: &str, n: usize, cause: &str, cut: i64, p
         "longer" => std::fs::write(&path, vec![0xABu8; 1 << 16]).unwrap(),
         _ => { let _ = std::fs::remove_file(&path); }
     }
+    if cause == "isdir" {
+        // the path is a directory: metadata() and File::open succeed, read() fails, mmap fails
+        let _ = std::fs::remove_file(&path);
+        std::fs::create_dir_all(&path).unwrap();
+        let len = std::fs::metadata(&path).map(|m| m.len() as usize).unwrap_or(0);
+        return (path, len, 0);
+    }
     let v64: Vec<u64> = (0..n as u64).map(|i| i.wrapping_mul(0x9E3779B97F4A7C15) ^ 0xA5).collect();
     let v8: Vec<u8> = (0..n).map(|i| (i * 7 + 3) as u8).collect();
     let name: String = "héllo🔥".chars().cycle().take(n % 11).collect();
@@ -304,6 +319,12 @@ fn make_file(dir: &std::path::Path, ty: &str, n: usize, cause: &str, cut: i64, p
             if other { store_err = v8.store(&path).err(); }
             else if cause == "wrongalign" { store_err = v2::Lay { a: 0xABCD1234, b: 77 }.store(&path).err(); }
             else { store_err = l.store(&path).err(); }
+        }
+        // many small reads: a file of tens of kilobytes made of 13-byte strings (buffered readers refill many times)
+        "strs" => {
+            let v: Vec<String> = (0..n).map(|i| format!("{:013}", i * 7919)).collect();
+            digest = v.digest();
+            if other { store_err = v8.store(&path).err(); } else { store_err = v.store(&path).err(); }
         }
         "big128" => { digest = 0; store_err = Big128 { x: 5 }.store(&path).err(); }
         _ => panic!("type"),
@@ -424,6 +445,8 @@ pub fn run_case(case: &Value, dir: &std::path::Path) -> Value {
             ("load_full", "doc") => observe_full(<Doc<Vec<u64>, String>>::load_full(path_ref), digest, o),
             ("load_full", "canary") => observe_full(<Canary<Vec<u64>>>::load_full(path_ref), digest, o),
             ("load_full", "lay") => observe_full(<Lay>::load_full(path_ref), digest, o),
+            ("load_full", "strs") => observe_full(<Vec<String>>::load_full(path_ref), digest, o),
+            (_, "strs") => observe_case(run_loader!(Vec<String>, loader, flags, path_ref), file_len, &ops, digest, o),
             ("load_full", "big128") => observe_full(<Big128>::load_full(path_ref).map(|_| Lay { a: 0, b: 0 }), Lay { a: 0, b: 0 }.digest(), o),
             (_, "vec64") => observe_case(run_loader!(Vec<u64>, loader, flags, path_ref), file_len, &ops, digest, o),
             (_, "vec8") => observe_case(run_loader!(Vec<u8>, loader, flags, path_ref), file_len, &ops, digest, o),
@@ -456,6 +479,7 @@ pub fn run_case(case: &Value, dir: &std::path::Path) -> Value {
     let canary_drops = CANARY_DROPS.load(SeqCst);
     let canary_valid = CANARY_SEEN.load(SeqCst) == (0..n as u64).map(|i| i.wrapping_mul(0x9E3779B97F4A7C15) ^ 0xA5).collect::<Vec<u64>>().peek();
     let _ = std::fs::remove_file(&path);
+    let _ = std::fs::remove_dir(&path);
     json!({
         "file_len": file_len, "store_exact": store_exact,
         "res": if panicked.is_some() { "panic" } else { o.res }, "msg": panicked,
